@@ -1007,6 +1007,16 @@ def E2_cif_tags(repo, clause):
                               "handled tags are recognised by `%s` - a PREFIX test: an extra column such as `_atom_site_label_component_0` or `_atom_site_fract_x_esd` begins like a handled tag and is "
                               "silently dropped on reading (the extra columns are the loop keys MINUS the exact handled tags)" % ast.unparse(c_)[:60],
                               slot="handled-tags-exact", positive="robust"))
+    # extra columns keep the order of the loop: the key list of a loop may go through an ORDERED difference only; set(...) / sorted(...) of it loses the file order
+    for f_ in [r] + [f2 for f2 in repo.all_fns() if f2.outer is r]:
+        for c_ in calls_in(f_):
+            if call_name(c_) == "keys" and isinstance(c_.func, ast.Attribute) and isinstance(c_.func.value, ast.Call) and call_name(c_.func.value) == "GetLoop":
+                wrap = f_.parents.get(c_)
+                if isinstance(wrap, ast.Call) and isinstance(wrap.func, ast.Name) and wrap.func.id in ("set", "frozenset") and wrap.args and wrap.args[0] is c_:
+                    obs.append(Ob("E2", clause, f_, wrap, False,
+                                  "the tags of a loop go through `%s`: a plain set forgets the order of the columns in the file, so extra per-atom / per-term columns come back in hash or "
+                                  "alphabetical order and the re-written file differs (the ordered difference OrderedSet(keys) - handled keeps it)" % ast.unparse(wrap)[:50],
+                                  slot="extra-columns-order", positive="robust"))
     mixed = sorted({t for t in handled_lists if t != t.lower()})
     obs.append(Ob("E2", clause, r, r.node, bool(handled_lists) and not mixed,
                   "tags removed from the loop's key list are spelled in lower case, as the CIF library reports keys (%d tags; mixed-case: %s)" % (len(set(handled_lists)), mixed or "none"),
@@ -1045,6 +1055,38 @@ def E2_cif_tags(repo, clause):
             by_slot.append(hit[0] if len(hit) == 1 else None)
         if all(x is not None for x in by_slot):
             accs = by_slot
+    if len(accs) == 1 and len(rets_) == 0:
+        # all three angles from ONE expression evaluated over a table of vector pairs: [angle(c[i], c[j]) for i, j in pairs], returned as (*lengths, *angles)
+        from .common import eval_small, Undecidable
+        rr = [x for x in cab.own_nodes() if isinstance(x, ast.Return) and isinstance(x.value, ast.Tuple)]
+        verdict_p = None
+        if len(rr) == 1 and rr[0].value.elts and isinstance(rr[0].value.elts[-1], ast.Starred):
+            ang = expand(cab, rr[0].value.elts[-1].value)
+            if isinstance(ang, ast.ListComp) and len(ang.generators) == 1 and any(isinstance(x, ast.Call) and call_name(x) == "arccos" for x in ast.walk(ang)):
+                g = ang.generators[0]
+                try:
+                    pairs = eval_small(expand(cab, g.iter), {})
+                    if isinstance(g.target, (ast.Tuple, ast.List)) and len(g.target.elts) == 2 and all(isinstance(p_, tuple) and len(p_) == 2 for p_ in pairs) and len(pairs) == 3:
+                        iv, jv = [t.id for t in g.target.elts]
+                        # the dot product inside must be of the rows [iv] and [jv]
+                        dots_ = [d for d in ast.walk(ang.elt) if isinstance(d, ast.Call) and call_name(d) == "dot"]
+                        idx_ = sorted(ast.unparse(a.slice) for d in dots_ for a in d.args if isinstance(a, ast.Subscript))
+                        if idx_ == sorted([iv, jv]):
+                            verdict_p = [tuple(sorted(p_)) for p_ in pairs]
+                except Undecidable:
+                    verdict_p = None
+        if verdict_p is not None:
+            for k_, nm_ in enumerate(("alpha", "beta", "gamma")):
+                okp_ = verdict_p[k_] == want_pairs[k_]
+                obs.append(Ob("E2", clause, cab, accs[0], okp_,
+                              "%s = angle between lattice rows %s: the %s entry of the pair table is %s%s" % (nm_, want_pairs[k_], ("first", "second", "third")[k_], verdict_p[k_],
+                                                                                                         "" if okp_ else " - the angles come out in the order of the table, so this slot holds another angle (alpha and gamma exchanged for (0,1),(0,2),(1,2))"),
+                              slot="cell-angle:%s" % nm_, positive="robust" if not okp_ else False))
+        else:
+            obs.append(Ob("E2", clause, cab, accs[0], False, "the three cell angles come from one expression whose vector-pair table could not be evaluated", slot="cell-angle:alpha", undecided=True))
+    elif len(accs) != 3:
+        obs.append(Ob("E2", clause, cab, cab.node, False, "expected three arccos expressions (alpha, beta, gamma), found %d" % len(accs), construct="def cell_abc_alpha_beta_gamma",
+                      slot="cell-angle:alpha", undecided=True))
     if len(accs) == 3:
         for k_, c_ in enumerate(accs):
             e_ = expand(cab, c_.args[0]) if cab.stmt_of(c_) is not None else c_.args[0]
